@@ -82,7 +82,7 @@ fn weights(n: usize, normalize: bool, offset: f64) {
         }
     }
 }
-/// @verif anchor=proportional_weights bound="population size 2; |objective| <= 1e6 or +inf; offset 0; not normalised"
+/// @verif anchor=proportional_weights tier=thorough bound="population size 2; |objective| <= 1e6 or +inf; offset 0; not normalised"
 #[cfg_attr(kani, kani::proof)] #[cfg_attr(kani, kani::unwind(6))]
 pub fn c11_weights_2() { weights(2, false, 0.0) }
 /// @verif anchor=proportional_weights tier=thorough bound="population size 2; offset 0.5; not normalised"
